@@ -230,10 +230,131 @@ fn concurrent(report: &mut Report, seed: u64, n: u64) -> Option<(String, String)
     None
 }
 
+/// Store-level second chance: the reference bits that matter in production are set by reads that go THROUGH the
+/// store (generation-bound lookups), which the public cache API above never exercises. The harness keeps its own
+/// record of which keys were read since the previous eviction pass and never consults the cache's bits for the
+/// "recently referenced" side of the rule.
+fn store_second_chance(report: &mut Report, seed: u64, n: u64) -> Option<(String, String)> {
+    use crate::storeutil::{self, Cfg};
+    let mut rng = Rng::derive(seed, n, 0x5ec0);
+    let dir = storeutil::Scratch(storeutil::scratch_dir(&format!("cache2c{n}")));
+    let path = format!("{}/c.feox", dir.0);
+    let mut cfg = Cfg::disk(16 + 400);
+    cfg.cache = true;
+    cfg.ttl = rng.chance(1, 2);
+    storeutil::ensure_device(&cfg, &path);
+    let store = match storeutil::open(&cfg, Some(&path)) {
+        Ok(s) => s,
+        Err(e) => {
+            report.inconclusive.push(format!("store_second_chance: open failed {e:?}"));
+            return None;
+        }
+    };
+    let cache = store.verif_cache()?;
+    cache.verif_set_watermarks(64 << 20, 64 << 20);
+    let nkeys = 24 + rng.usize_below(60);
+    let keys: Vec<Vec<u8>> = (0..nkeys).map(|i| format!("sc{n}-{i:03}").into_bytes()).collect();
+    for (i, k) in keys.iter().enumerate() {
+        let v = crate::values::make(crate::values::Tag { key_id: i as u32, writer: 0, seq: 1 }, rng.range(300, 3000) as usize);
+        if store.insert(k, &v).is_err() {
+            return None;
+        }
+    }
+    if store.flush().is_err() {
+        report.inconclusive.push("store_second_chance: flush failed".into());
+        return None;
+    }
+    // first reads come from the device and fill the cache
+    for k in &keys {
+        let _ = store.get(k);
+    }
+    let entries = |c: &ClockCache| -> BTreeMap<Vec<u8>, (usize, bool)> { c.verif_entries().into_iter().map(|(k, size, rbit, _b, _v)| (k, (size, rbit))).collect() };
+    let filled = entries(&cache);
+    if filled.len() < nkeys / 2 {
+        report.inconclusive.push(format!("store_second_chance: only {} of {} values were cached after a flush and one read each", filled.len(), nkeys));
+        return None;
+    }
+    let usage = |c: &ClockCache| c.stats().memory_usage;
+    // pass 1: evict a few entries; every surviving entry has been passed by the hand, its bit cleared
+    let total = usage(&cache);
+    let low1 = total - total / (4 + rng.usize_below(6));
+    cache.verif_set_watermarks(64 << 20, low1);
+    cache.evict_entries();
+    let survivors = entries(&cache);
+    if usage(&cache) > low1 {
+        return Some(("cache:eviction-misses-low-watermark".into(), format!("store cache: evict_entries() started at {total} bytes and stopped at {} bytes, above the low watermark {low1}", usage(&cache))));
+    }
+    // re-read a subset THROUGH THE STORE (cache hits on the bound generation)
+    // a re-read counts only if it did not go to the device (the values are not resident after the flush, so it
+    // was served by the cache); get / get_bytes additionally show up in the store's hit counter
+    let _ = crate::mon::hub();
+    let hits_before = store.stats().cache_hits;
+    let mut reread: std::collections::BTreeSet<Vec<u8>> = Default::default();
+    let mut counted = 0u64;
+    for k in survivors.keys() {
+        if rng.chance(1, 2) {
+            let preads = crate::mon::thread_preads();
+            let how = rng.below(3);
+            let ok = match how {
+                0 => store.get(k).is_ok(),
+                1 => store.get_bytes(k).is_ok(),
+                _ => store.range_query(k, k, 2).map(|r| r.len() == 1).unwrap_or(false),
+            };
+            if ok && crate::mon::thread_preads() == preads {
+                reread.insert(k.clone());
+                if how < 2 {
+                    counted += 1;
+                }
+            }
+        }
+    }
+    let hits = store.stats().cache_hits - hits_before;
+    report.count("store_cache_rereads", reread.len() as u64);
+    report.count("store_cache_hits_confirmed", hits);
+    if hits < counted {
+        report.inconclusive.push(format!("store_second_chance: {counted} re-reads by get/get_bytes without a device read but only {hits} counted cache hits"));
+        return None;
+    }
+    // pass 2: the entries nobody re-read suffice on their own
+    let before = entries(&cache);
+    let now = usage(&cache);
+    let cold: usize = before.iter().filter(|(k, _)| !reread.contains(*k)).map(|(_, e)| e.0).sum();
+    if cold == 0 || reread.is_empty() {
+        return None;
+    }
+    let need = 1 + rng.usize_below(cold.max(2) - 1);
+    cache.verif_set_watermarks(64 << 20, now - need);
+    cache.evict_entries();
+    let after = entries(&cache);
+    report.evaluations += 1;
+    report.count("store_second_chance_passes", 1);
+    let victims: Vec<&Vec<u8>> = before.keys().filter(|k| !after.contains_key(*k)).collect();
+    let hot_victims: Vec<String> = victims.iter().filter(|k| reread.contains(**k)).map(|k| hex(k)).collect();
+    report.nontrivial.insert(fnv_mix(n, victims.len() as u64));
+    if usage(&cache) > now - need {
+        return Some(("cache:eviction-misses-low-watermark".into(), format!("store cache: evict_entries() started at {now} bytes and stopped at {} bytes, above the low watermark {}", usage(&cache), now - need)));
+    }
+    if !hot_victims.is_empty() {
+        return Some((
+            "cache:evicted-referenced".into(),
+            format!("store cache: {} of {} entries re-read through the store since the previous eviction pass were evicted ({:?}...) although the {} entries nobody re-read total {cold} bytes and only {need} bytes had to go", hot_victims.len(), reread.len(), hot_victims.iter().take(3).collect::<Vec<_>>(), before.len() - reread.len()),
+        ));
+    }
+    // transparency on the way out: every key still reads its own value
+    for (i, k) in keys.iter().enumerate() {
+        match store.get(k) {
+            Ok(v) if crate::values::check(&v).map(|t| t.key_id == i as u32).unwrap_or(false) => {}
+            other => return Some(("cache:wrong-value".into(), format!("store cache: get({}) after the eviction passes returned {:?}", hex(k), other.map(|v| crate::values::describe(&v))))),
+        }
+    }
+    drop(store);
+    None
+}
+
 pub fn run(args: &Args) -> Report {
     let mut report = Report::new(
         "cache",
-        "the public ClockCache API (insert/get/remove/evict_entries/clear/adjust_watermarks) driven by seeded sequences with byte-granular small watermarks (40-200 KiB) and values sized around the too-large-to-cache rule; after EVERY call: reported memory = sum of entry sizes (entry overhead measured), each entry's size = key+value+overhead, get returns the last inserted value or misses, remove is followed by a miss, entries vanish only through remove/clear or an eviction pass that was due, evict_entries ends at or below the low watermark, and when the unreferenced entries alone would have sufficed no referenced entry is evicted; plus 8-thread mixed runs checked for accounting conservation at quiescence. distinct = (entry-count class, usage/high class, call kind, eviction due)",
+        "the public ClockCache API (insert/get/remove/evict_entries/clear/adjust_watermarks) driven by seeded sequences with byte-granular small watermarks (40-200 KiB) and values sized around the too-large-to-cache rule; after EVERY call: reported memory = sum of entry sizes (entry overhead measured), each entry's size = key+value+overhead, get returns the last inserted value or misses, remove is followed by a miss, entries vanish only through remove/clear or an eviction pass that was due, evict_entries ends at or below the low watermark, and when the unreferenced entries alone would have sufficed no referenced entry is evicted; plus 8-thread mixed runs checked for accounting conservation at quiescence; plus store-level second-chance scenarios (persistent store, values flushed and cached by reads, one eviction pass, a subset re-read THROUGH the store with the hits confirmed by the hit counter, second pass sized so that the entries nobody re-read suffice: none of the re-read entries may go - the harness keeps its own record of what was re-read and does not consult the cache's reference bits). distinct = (entry-count class, usage/high class, call kind, eviction due)",
     );
     let shard = args.num("shard", 0);
     let shards = args.num("shards", 1).max(1);
@@ -247,6 +368,11 @@ pub fn run(args: &Args) -> Report {
             report.violation(sig, msg, json!({"engine": "cache", "seed": args.seed, "sequence": n, "steps": steps}));
             if report.violations.len() >= 3 {
                 return report;
+            }
+        }
+        if n % 4 == 0 {
+            if let Some((sig, msg)) = store_second_chance(&mut report, args.seed, n) {
+                report.violation(sig, msg, json!({"engine": "cache", "seed": args.seed, "store_second_chance": n}));
             }
         }
         if n % 10 == 0 {
